@@ -51,7 +51,7 @@ Step(e) == CASE e.op = "new" -> New(e)
              [] e.op = "range" -> RangeA(e.s, e.vs)
              [] e.op = "reload" -> Reload /\ e.res = "ok"
 TInit == Init /\ l = 1
-TNext == More /\ Step(Rec[l]) /\ Observed(Rec[l]) /\ (Layout(Rec[l]) \/ PrintT(<<"LAYOUT", l>>)) /\ l' = l + 1
+TNext == More /\ Step(Rec[l]) /\ Observed(Rec[l]) /\ (IF Layout(Rec[l]) THEN TRUE ELSE PrintT(<<"LAYOUT", l>>)) /\ l' = l + 1
 TSpec == TInit /\ [][TNext]_<<vars, l>>
 Accepted == (TLCGet("stats").diameter - 1 = Len(Rec)) \/ (PrintT(<<"REJECT", TLCGet("stats").diameter>>) /\ FALSE)
 =============================================================================
